@@ -47,7 +47,7 @@ def engines():
     return _ENG
 
 
-def conv(name, val, shape, eng, ints=False):
+def conv(name, val, shape, eng, ints=False, zero_d=False):
     """abstract argument -> what the element layer would pass to this engine; with `ints`, whole numbers are written
     the way users write them: integer arrays / Python ints (NumPy engine only: CasADi's DM is always double)"""
     if name == "type":
@@ -57,6 +57,10 @@ def conv(name, val, shape, eng, ints=False):
     whole = lambda z: float(z).is_integer() and abs(z) < 1e6  # noqa: E731
     if isinstance(val, list):
         arr = [num(z) for z in val]
+        if eng == "np" and len(arr) == 1 and name in ("q_lasts", "v_lasts", "rho_firsts") and zero_d:
+            # a node with ONE entering / leaving link: the element layer hands over that link's value as a scalar; a
+            # caller of the primitive may hold it as a NumPy scalar or as a 0-d array (mutable)
+            return np.array(arr[0], float) if ints else np.float64(arr[0])
         if eng == "np":
             return np.array([int(z) for z in arr], np.int64) if ints and arr and all(map(whole, arr)) else np.array(arr, float)
         return cs.DM(arr)
@@ -65,7 +69,9 @@ def conv(name, val, shape, eng, ints=False):
         if eng == "np":
             if ints and whole(x):
                 return np.int64(x) if shape == "scalar" else np.array([int(x)], np.int64)
-            return np.float64(x) if shape == "scalar" else np.array([x], float)
+            if shape == "scalar":    # a NumPy scalar (immutable) or a 0-d array (mutable: the callee must not write into it)
+                return np.array(x, float) if zero_d else np.float64(x)
+            return np.array([x], float)
         return cs.DM(x)
     return int(x) if ints and eng == "np" and whole(x) else x   # a parameter: a plain Python number
 
@@ -90,14 +96,23 @@ def call(case, eng):
             n_ = len(a["rho"])
             vsl = {"all": list(range(n_)), "first": [0], "last": [n_ - 1], "outer": sorted({0, n_ - 1})}.get(
                 a["pat"], [i for i in range(n_) if i >= n_ - 2])
+        zero_d = zlib.crc32(json.dumps([shape, a, prim], sort_keys=True).encode()) % 2 == 0
         for n in names:
             if n == "vsl":
                 args.append(vsl)
             elif n == "v_ctrl" and vsl is not None:
                 args.append(conv(n, [a[n][i] for i in vsl], shape, eng, ints))
             else:
-                args.append(conv(n, a[n], shape, eng, ints))
-        return {"ok": True, "err": "", "out": flat(getattr(getattr(e, grp), prim)(*args))}
+                args.append(conv(n, a[n], shape, eng, ints, zero_d))
+        f = getattr(getattr(e, grp), prim)
+        out = flat(f(*args))
+        if eng == "np":
+            # the same argument OBJECTS once more (a caller who keeps its arrays): the value must be the same; if it is
+            # not, the second answer is the one reported and the comparison with the laws decides
+            out2 = flat(f(*args))
+            if out2 != out:
+                out = out2
+        return {"ok": True, "err": "", "out": out}
     except BaseException as ex:  # noqa: BLE001
         return {"ok": False, "err": f"{type(ex).__name__}: {str(ex)[:120]}", "out": []}
 
